@@ -37,6 +37,24 @@ def seeded():
     return out
 
 
+def refactorings():
+    """behaviour-preserving refactorings written by independent sub-agents: negative controls"""
+    out = []
+    root = os.path.join(VERIF, 'refactorings')
+    if not os.path.isdir(root):
+        return out
+    exp = {}
+    ep = os.path.join(root, 'EXPECTED.json')
+    if os.path.exists(ep):
+        exp = json.load(open(ep))
+    for d in sorted(os.listdir(root)):
+        pp = os.path.join(root, d, 'patch.diff')
+        if os.path.exists(pp):
+            out.append(dict(id='refactor-' + d, kind='equivalent', patch=pp, known_limit=exp.get(d),
+                            note='sub-agent refactoring' + (' (known limit: ' + exp[d][:80] + ')' if d in exp else '')))
+    return out
+
+
 def make_copy(repo):
     d = tempfile.mkdtemp(prefix='rta-mut-')
     subprocess.run(['rsync', '-a', '--exclude', 'target', '--exclude', '.git', repo.rstrip('/') + '/', d + '/'], check=True)
